@@ -172,7 +172,7 @@ where
                 h.check(&mut sut)?;
             }
             let hist2 = hist.clone();
-            let rebuild = || crate::explore::replay(h, &hist2, &Stats::default()).expect("replay failed");
+            let rebuild = || crate::explore::replay_nested(h, &hist2, &Stats::default()).expect("replay failed");
             h.probes(&rebuild, &mut sut, &stats)?;
             h.finish(sut)?;
             let errs = crate::env::take_errors();
